@@ -24,6 +24,10 @@
 (*             are not in `used`                                           *)
 (*   split : indices.split_idx_string: a new index name starts at every    *)
 (*           character that is not a digit                                 *)
+(*   mti   : indices.minimize_tensor_indices(tuple, target names): target  *)
+(*           indices stay, the other indices get the lowest names that are *)
+(*           no target names, in the order of their first occurrence; the  *)
+(*           returned transpositions map the input tuple onto the result   *)
 (***************************************************************************)
 EXTENDS Integers, Sequences, FiniteSets, TLC, Json, SequencesExt, FiniteSetsExt
 
@@ -77,6 +81,27 @@ SplitSpec(s) ==
   LET st == SetToSortSeq(Starts(s), LAMBDA a, b : a < b) IN
   [j \in 1..Len(st) |-> SubSeq(s, st[j], IF j < Len(st) THEN st[j + 1] - 1 ELSE Len(s))]
 
+(* minimize_tensor_indices(tensor indices, target names): an index is       *)
+(* <<class, letter, number>> (class 1 = occ, 2 = virt).  Target indices stay; *)
+(* the m-th distinct non-target index of a class (by first occurrence in the *)
+(* tuple) becomes the m-th lowest name of the class that is no target name. *)
+NLc == <<7, 8>>
+RECURSIVE Distinct(_, _, _)
+Distinct(t, k, acc) ==
+  IF k > Len(t) THEN acc
+  ELSE Distinct(t, k + 1, IF \E j \in 1..Len(acc) : acc[j] = t[k] THEN acc ELSE Append(acc, t[k]))
+MinimizeTI(t, tgt) ==
+  LET free(c) == SelectSeq(Distinct(t, 1, <<>>), LAMBDA x : x[1] = c /\ x \notin tgt)
+      tnames(c) == {<<x[2], x[3]>> : x \in {y \in tgt : y[1] = c}}
+      low(c) == Lowest(Len(free(c)), tnames(c), NLc[c])
+      image(x) == IF x \in tgt THEN x
+                  ELSE LET f == free(x[1])
+                           r == CHOOSE j \in 1..Len(f) : f[j] = x
+                       IN <<x[1], low(x[1])[r][1], low(x[1])[r][2]>>
+  IN [k \in 1..Len(t) |-> image(t[k])]
+MtiUniverse == {<<1, 1, 0>>, <<1, 2, 0>>, <<1, 3, 0>>, <<1, 1, 1>>, <<2, 1, 0>>, <<2, 2, 0>>}
+MtiTargets == {{}, {<<1, 1, 0>>}, {<<1, 2, 0>>}, {<<1, 1, 0>>, <<2, 1, 0>>}, {<<1, 2, 0>>, <<1, 3, 0>>}}
+
 UsedUniverse == {<<1, 0>>, <<2, 0>>, <<7, 0>>, <<1, 1>>, <<2, 1>>, <<1, 2>>}
 
 Cases ==
@@ -86,6 +111,7 @@ Cases ==
   \cup {[f |-> "bord", n |-> n] : n \in 0..MaxOrder}
   \cup {[f |-> "low", n |-> n, used |-> u, nl |-> 7] : n \in 1..3, u \in SUBSET UsedUniverse}
   \cup {[f |-> "split", s |-> s] : s \in UNION {[1..L -> 1..4] : L \in 1..5}}
+  \cup {[f |-> "mti", t |-> t, tgt |-> g] : t \in UNION {[1..L -> MtiUniverse] : L \in 1..3}, g \in MtiTargets}
 
 Result(c) ==
   CASE c.f = "gto" -> [sets |-> Compositions(c.order, c.len, c.mn)]
@@ -95,6 +121,7 @@ Result(c) ==
                         spaces |-> SpaceOrders(c.n)]
     [] c.f = "low" -> [names |-> Lowest(c.n, c.used, c.nl)]
     [] c.f = "split" -> [parts |-> SplitSpec(c.s)]
+    [] c.f = "mti" -> [names |-> MinimizeTI(c.t, c.tgt)]
 
 Init == case \in Cases
 Next == UNCHANGED case
